@@ -37,6 +37,10 @@ type CtxA struct{ V int }
 type CtxB struct{ V string }
 type CtxR struct{ V bool }
 
+// error-like types that are not the built-in error
+type Failure interface{ Error() string }
+type MyErr error
+
 type Holder struct{ F In }
 type HolderOut struct{ F Out }
 `
@@ -87,6 +91,10 @@ func resultType(r byte) string {
 		return "Out"
 	case 'E':
 		return "error"
+	case 'F':
+		return "Failure"
+	case 'G':
+		return "MyErr"
 	}
 	return "int"
 }
@@ -398,7 +406,8 @@ func validParams(p string) bool {
 
 func c14Cases(quick bool) []sigCase {
 	var out []sigCase
-	results := seqs("OEZ", 3)
+	// F, G: types with the method set of error that are not the built-in error
+	results := append(seqs("OEZ", 3), "OF", "OG", "F", "G")
 	for _, consumer := range []string{"method", "variable"} {
 		for _, p := range seqs("SNXYRT", 4) {
 			if !validParams(p) {
@@ -422,7 +431,7 @@ func c14Cases(quick bool) []sigCase {
 			if !validParams(p) {
 				continue
 			}
-			for _, r := range seqs("OEZ", 2) {
+			for _, r := range append(seqs("OEZ", 2), "OF", "OG") {
 				out = append(out, sigCase{Consumer: consumer, Params: p, Results: r, Named: true})
 			}
 		}
